@@ -391,3 +391,65 @@ def role_calls_deep(crate, role, name):
                 if any(c.callee and c.callee.name == name for c in sub.calls):
                     return True
     return False
+
+
+# ---------------------------------------------------------------------------- merge region (robust to helper extraction)
+def merge_region(crate):
+    """core   : functions that directly call the union-find setter and a hashcons writer (the class merge proper)
+    members: functions from which a core function is reachable but the leader union is not (wrappers around
+             the merge), plus helpers called only from members
+    entries: members called directly from the leader union"""
+    key = "merge_region"
+    if key in crate._cache:
+        return crate._cache[key]
+    core = set(merge_functions(crate))
+    leaders = set(leader_union_functions(crate))
+    fns = {b.id: b for b in crate.fns()}
+    reach = {fid: crate.reachable_from([fid], resolve_traits=False) for fid in fns}
+    members = {fid for fid in fns if (core & reach[fid]) and not (leaders & reach[fid])}
+    # helpers: called from members, not reaching the leader union, all of whose callers are members/helpers
+    callers = {}
+    for fid, b in fns.items():
+        for c in b.all_calls():
+            if c.callee and c.callee.target in fns:
+                callers.setdefault(c.callee.target, set()).add(fid)
+    changed = True
+    helpers = set()
+    while changed:
+        changed = False
+        for fid in fns:
+            if fid in members or fid in helpers or fid in leaders:
+                continue
+            cs = callers.get(fid, set())
+            if cs and cs <= (members | helpers) and not (leaders & reach[fid]):
+                # only functions that take the e-graph mutably matter
+                b = fns[fid]
+                if b.argc >= 1 and "egraph::EGraph<" in b.local_ty(1) and b.local_ty(1).startswith("&mut"):
+                    helpers.add(fid)
+                    changed = True
+    entries = {fid for fid in members if any(l in callers.get(fid, set()) for l in leaders)}
+    out = {"core": sorted(core), "members": sorted(members | helpers), "entries": sorted(entries)}
+    crate._cache[key] = out
+    return out
+
+
+def lift_param(crate, fn_id, pname, top_ids, depth=0):
+    """names of the parameters of the functions in top_ids that the parameter `pname` of fn_id is bound to,
+    following calls that pass parameters through unchanged: {(top fn id, top param name)}"""
+    if fn_id in top_ids:
+        return {(fn_id, pname)}
+    if depth > 4:
+        return set()
+    out = set()
+    callee = crate.bodies[fn_id]
+    pidx = callee.param_index(pname)
+    if pidx is None:
+        return out
+    for b in crate.fns():
+        for c in calls_to(crate, b, {fn_id}):
+            if c.body is not b or pidx - 1 >= len(c.args):
+                continue
+            r = strip_role(b.role_of_operand(c.args[pidx - 1]))
+            if isinstance(r, tuple) and r[0] == "param":
+                out |= lift_param(crate, b.id, r[1], top_ids, depth + 1)
+    return out
